@@ -1,4 +1,4 @@
-import KsiVerif.Proofs.Crc
+import KsiVerif.Proofs.CrcStraddle
 /-!
 # C17 — publication strings round-trip; every single-symbol corruption is rejected
 
@@ -114,8 +114,67 @@ theorem corrupted_crc_field_rejected (s' : List UInt8) (body field' : Bytes)
     simp only [ne_eq, hcrc, not_false_eq_true, ↓reduceIte]
     exact ⟨_, rfl⟩
 
+/-- **Corruption straddling the boundary between `time ‖ imprint` and the CRC field is
+rejected — one body octet, up to two field octets** (a replaced symbol whose five bits lie
+across the boundary; two swapped symbols with at most eight of their ten bits in the body).
+The stored CRC is big-endian while the register is reflected, so this is *not* the burst
+theorem; it is proved from the generated table (`T_low16`). -/
+theorem corrupted_straddle_1_2_rejected (s' : List UInt8) (pre : Bytes) (m b x y : UInt8)
+    (hne : ¬ (b = 0 ∧ x = 0 ∧ y = 0))
+    (hdec : b32decode s' = .ok (pre ++ xorBytes [m] [b] ++
+      xorBytes (beBytes 4 (crc32 (pre ++ [m]))) [x, y, 0, 0])) :
+    ∃ err, fromPubString s' = .error err := by
+  unfold fromPubString
+  rw [hdec]
+  simp only
+  split
+  · exact ⟨_, rfl⟩
+  · have hlen : (pre ++ xorBytes [m] [b] ++ xorBytes (beBytes 4 (crc32 (pre ++ [m]))) [x, y, 0, 0]).length - 4 =
+        (pre ++ xorBytes [m] [b]).length := by
+      simp [beBytes, xorBytes]
+    rw [hlen, List.take_left, List.drop_left]
+    have hcrc : crc32 (pre ++ xorBytes [m] [b]) ≠
+        beNat (xorBytes (beBytes 4 (crc32 (pre ++ [m]))) [x, y, 0, 0]) :=
+      fun h => hne (straddle_1_2 pre m b x y h)
+    simp only [ne_eq, hcrc, not_false_eq_true, ↓reduceIte]
+    exact ⟨_, rfl⟩
+
+/-- **… two body octets, one field octet** (two swapped symbols with nine of their ten bits in
+the body), from `T2_low24`.  With `corrupted_body_rejected` (window inside the body) and
+`corrupted_crc_field_rejected` (window inside the field) every non-zero error confined to at
+most three consecutive octets of the decoded binary is covered, wherever it lies. -/
+theorem corrupted_straddle_2_1_rejected (s' : List UInt8) (pre : Bytes) (m1 m2 b1 b2 x : UInt8)
+    (hne : ¬ (b1 = 0 ∧ b2 = 0 ∧ x = 0))
+    (hdec : b32decode s' = .ok (pre ++ xorBytes [m1, m2] [b1, b2] ++
+      xorBytes (beBytes 4 (crc32 (pre ++ [m1, m2]))) [x, 0, 0, 0])) :
+    ∃ err, fromPubString s' = .error err := by
+  unfold fromPubString
+  rw [hdec]
+  simp only
+  split
+  · exact ⟨_, rfl⟩
+  · have hlen : (pre ++ xorBytes [m1, m2] [b1, b2] ++
+        xorBytes (beBytes 4 (crc32 (pre ++ [m1, m2]))) [x, 0, 0, 0]).length - 4 =
+        (pre ++ xorBytes [m1, m2] [b1, b2]).length := by
+      simp [beBytes, xorBytes]
+    rw [hlen, List.take_left, List.drop_left]
+    have hcrc : crc32 (pre ++ xorBytes [m1, m2] [b1, b2]) ≠
+        beNat (xorBytes (beBytes 4 (crc32 (pre ++ [m1, m2]))) [x, 0, 0, 0]) :=
+      fun h => hne (straddle_2_1 pre m1 m2 b1 b2 x h)
+    simp only [ne_eq, hcrc, not_false_eq_true, ↓reduceIte]
+    exact ⟨_, rfl⟩
+
+/-- The general form behind both: after an error `e` on the tail of the body and `d` on the
+field, the comparison in `KSI_PublicationData_fromBase32` can succeed only if `d` is exactly
+the register image of `e` — for error patterns of every length. -/
+theorem straddle_accepts_only_if (pre mid e d : Bytes) (hl : e.length = mid.length) (hd : d.length = 4)
+    (h : crc32 (pre ++ xorBytes mid e) = beNat (xorBytes (beBytes 4 (crc32 (pre ++ mid))) d)) :
+    e.foldl crcStep 0 = beNat d :=
+  tail_and_field_error pre mid e d hl hd h
+
 /-! Non-vacuity: a concrete SHA-256 publication meets the hypotheses of `pub_roundtrip`. -/
 example : Gen.hashValid 1 = true ∧ Gen.hashLen 1 = 32 ∧ 0 < Gen.hashLen 1 := by decide
 example : ∃ x ∈ ([0x10, 0x00] : Bytes), x ≠ 0 := ⟨0x10, by simp, by decide⟩
+example : ¬ ((0x03 : UInt8) = 0 ∧ (0xC0 : UInt8) = 0 ∧ (0 : UInt8) = 0) := by decide
 
 end KsiVerif.Props.C17
